@@ -16,6 +16,7 @@ type c12Case struct {
 	BAM  bool      `json:"bam,omitempty"`
 	Hdr  HdrSpec   `json:"hdr,omitempty"`
 	Recs []RecSpec `json:"recs,omitempty"`
+	Stmt bool      `json:"stmt_yields,omitempty"`
 }
 
 type c12 struct{}
@@ -56,6 +57,7 @@ func (c12) Gen(t *Tape, tier string, run int) interface{} {
 	if t.Chance("work", 1, 5) {
 		c.Fault = &Fault{Op: "write", At: t.Draw("work", 6), Kind: []string{"err", "partial"}[t.Draw("work", 2)], Persistent: t.Bool("work")}
 	}
+	c.Stmt = t.Chance("work", 1, 4) && len(c.W.Written()) <= 20000
 	if t.Chance("work", 1, 5) {
 		c.BAM = true
 		c.Fault = nil
@@ -108,6 +110,7 @@ func (pc *prefixChecker) check(img, started []byte, when string) *Violation {
 
 func (p c12) Exec(x *Exec, ci interface{}) *Verdict {
 	c := ci.(*c12Case)
+	x.StmtAll = c.Stmt
 	if c.BAM {
 		return p.execBAM(x, c)
 	}
